@@ -9,6 +9,8 @@ def first_method_rows(spec, start_row, n):
 
 class C06(scen.WorldProp):
     id = "C06"
+    fuzz_kinds = {"ring", "call"}
+    fuzz_times = False
     lean_module = "Wheatley.Props.C06"
     theorems = ["Wheatley.C06.go_arms_counter",
                 "Wheatley.C06.go_during_method_noop",
